@@ -2,8 +2,9 @@
 
 Engine E2 (small-scope enumeration): every directed multigraph on 3 fixed nodes (labels + one tag) with
 <= 2 edges (thorough: also 3 edges over a reduced edge alphabet) x every text of a 5-text alphabet x every
-configuration with <= 2 deviations from the default over 11 dimensions (decay mode, radius, iter_cap,
-iter_cap_layers, queue budget, node budget, relax cap, slice t1_iters, slice t1_pops, perf caps, one/two graphs).
+configuration with <= 2 deviations from the default over 13 dimensions (decay mode, radius, iter_cap,
+iter_cap_layers, queue budget, node budget, relax cap, slice t1_iters, slice t1_pops, perf caps, one/two graphs,
+a muted relation, sequential walk / per-graph fan-out).
 The REAL `clematis.engine.stages.t1.t1_propagate` is executed on a real `InMemoryGraphStore` for each element.
 
 Three oracle layers per execution
@@ -19,7 +20,11 @@ Three oracle layers per execution
 Further legs: "arms" (hop distance over two paths of different length), "warm cache" (slice caps vs. an earlier call
 without them), "keyword holders" (who holds which label/tag is enumerated: keywords unique, shared by several nodes,
 doubled on one node) and "call histories" (every short sequence of calls over the active-graph lists of a two-graph
-store with the result cache on; oracle = the same call made cold).
+store with the result cache on; oracle = the same call made cold) and "fan-out" (the entry path is a configuration
+dimension `par`: the stage walks the graphs one after the other or hands them to the per-graph fan-out behind the
+perf.parallel gate, which aggregates the per-graph results through its own merge code; the fan-out leg adds a second
+graph and a further deviation to the gate.  The pool's workers run inline, one at a time, in submission order - thread
+schedules are C09's subject - so all three oracle layers apply unchanged).
 
 Differences from DESIGN.md "C12": the "loose" pop budget is 128 instead of the engine default 10^4 (LOOSE_Q below);
 one more text (all three nodes) and two more config dimensions (slice caps looser than the config value, a second
@@ -29,6 +34,7 @@ from __future__ import annotations
 
 import bisect
 import collections
+import concurrent.futures as _cf
 import heapq as _real_heapq
 import itertools
 import types
@@ -36,6 +42,7 @@ import types
 from mc.runner import Run, Stats, HarnessError, NCPU
 
 import clematis.engine.stages.t1 as t1mod
+import clematis.engine.util.parallel as par_mod
 from clematis.engine.types import Config, Node, Edge
 from clematis.graph.store import InMemoryGraphStore
 
@@ -80,8 +87,15 @@ DIMS = [
     ("world", ["one", "two"]),
     # a relation muted with multiplier exactly 0 (accepted by the validator): nothing spreads along its edges
     ("mult", ["default", "supports0"]),
+    # the entry path of the stage: graphs walked one after the other ("off", the default) or handed to the per-graph
+    # fan-out behind the perf.parallel gate ("on": enabled + t1 + max_workers 4), which aggregates the per-graph
+    # results through its own merge code.  The statement quantifies over configurations; it holds on both paths.
+    ("par", ["off", "on"]),
 ]
 PERF_THOROUGH_EXTRA = ["frontier2", "visited2", "dedupe2"]
+# gate boundary: perf.parallel enabled for T1 with max_workers 1 (documented: no fan-out below 2 workers)
+PAR_THOROUGH_EXTRA = ["workers1"]
+PAR_WORKERS = {"on": 4, "workers1": 1}
 
 
 def dims_for(thorough: bool):
@@ -90,6 +104,8 @@ def dims_for(thorough: bool):
         vals = list(vals)
         if thorough and name == "perf":
             vals += PERF_THOROUGH_EXTRA
+        if thorough and name == "par":
+            vals += PAR_THOROUGH_EXTRA
         out.append((name, vals))
     return out
 
@@ -175,6 +191,8 @@ class _Obs:
         self.evals = []
         self.over_budget_expansion = None
         self.odd_items = 0
+        self.pools = 0
+        self.pool_tasks = 0
 
 
 OBS = _Obs()
@@ -283,6 +301,35 @@ class ObsStore(InMemoryGraphStore):
         return _ObsAdj({u: _ObsList([(v, _ObsEdge(e)) for (v, e) in lst]) for u, lst in adj.items()})
 
 
+class _InlinePool:
+    """stands in for `ThreadPoolExecutor` inside clematis.engine.util.parallel: every submitted thunk runs at once on
+    the calling thread (workers one at a time, in submission order) and is delivered through a real, completed Future.
+    The fan-out code of the stage (task list, run_parallel, merge, unpacking) is the real one; only the thread
+    schedule is fixed, which keeps the observing proxies (process-global, one walk at a time) meaningful."""
+
+    def __init__(self, max_workers=None, thread_name_prefix="", **_kw):
+        self.max_workers = max_workers
+        OBS.pools += 1
+
+    def submit(self, fn, *a, **kw):
+        OBS.pool_tasks += 1
+        f = _cf.Future()
+        try:
+            f.set_result(fn(*a, **kw))
+        except Exception as e:  # noqa: BLE001 -- delivered through Future.result(), like a real pool
+            f.set_exception(e)
+        return f
+
+    def shutdown(self, wait=True, **_kw):
+        return None
+
+    def __enter__(self):
+        return self
+
+    def __exit__(self, *exc):
+        return False
+
+
 _INSTALLED = False
 
 
@@ -290,6 +337,8 @@ def install():
     global _INSTALLED
     if _INSTALLED:
         return
+    if getattr(par_mod, "ThreadPoolExecutor", None) is not _cf.ThreadPoolExecutor:
+        raise HarnessError("seam missing: clematis.engine.util.parallel.ThreadPoolExecutor is not the stdlib pool")
     if getattr(t1mod, "heapq", None) is not _real_heapq:
         raise HarnessError("seam missing: clematis.engine.stages.t1.heapq is not the heapq module")
     if getattr(t1mod, "defaultdict", None) is not collections.defaultdict:
@@ -299,6 +348,7 @@ def install():
             raise HarnessError("seam missing: t1.%s" % nm)
     t1mod.heapq = _HeapProxy()
     t1mod.defaultdict = _ObsDD
+    par_mod.ThreadPoolExecutor = _InlinePool
     _INSTALLED = True
 
 
@@ -329,6 +379,7 @@ def params(dev: dict) -> dict:
         "perf": perf,
         "world": g("world", "one"),
         "mult": g("mult", "default"),
+        "par": g("par", "off"),
     }
     P["edge_mult"] = dict(EDGE_MULT, supports=0.0) if P["mult"] == "supports0" else dict(EDGE_MULT)
     L = min(P["iter_cap"], P["layers"])
@@ -377,6 +428,9 @@ def make_ctx(dev: dict, cache=False, cache_entries: int = 64):
         if P["perf"] == "off":
             cfg.perf = {"enabled": True, "t1": {}}
         cfg.perf["t1"]["cache"] = {"max_entries": cache_entries, "max_bytes": 1 << 20}
+    if P["par"] != "off":
+        # the fan-out gate is its own switch (perf.parallel.enabled + .t1 + max_workers > 1), independent of perf.enabled
+        cfg.perf["parallel"] = {"enabled": True, "t1": True, "t2": False, "agents": False, "max_workers": PAR_WORKERS[P["par"]]}
     ctx = types.SimpleNamespace(cfg=cfg, config=cfg, turn_id="1", agent_id="A")
     sb = {}
     if P["slice_iters"] is not None:
@@ -829,15 +883,31 @@ def observe_digest(res):
     return (repr(res.graph_deltas), repr(sorted(res.metrics.items())), tuple(OBS.pop_trace), OBS.acc_sets, OBS.edges_iter, OBS.weight_reads)
 
 
-def check_case(edges, text, dev, nodes=None):
-    edges = [tuple(e) for e in edges]
+def _check_plain(edges, text, dev, nodes=None):
     ctx, P = make_ctx(dev)
-    if nodes is not None:
-        nodes = [(i, l, (list(t) if t is not None else None)) for i, l, t in nodes]
     sc = make_scene(edges, text, P["world"], nodes)
     res, store, before, state = execute(sc, ctx, P)
     V, _oc, _nt = judge(sc, dev, P, res, store, before, state)
     return V
+
+
+FANOUT_TAG = "@fan-out"
+
+
+def tag_fanout(V, edges, text, dev, nodes=None):
+    """classification only (never decides a verdict): a failure seen with the perf.parallel gate set is re-run with the
+    gate left at its default; signatures the sequential walk does not show are marked as specific to the fan-out path"""
+    if not V or dev.get("par", "off") == "off":
+        return V
+    seq = {sig for sig, _w in _check_plain(edges, text, {k: v for k, v in dev.items() if k != "par"}, nodes)}
+    return [((sig if sig in seq else sig + FANOUT_TAG), what) for sig, what in V]
+
+
+def check_case(edges, text, dev, nodes=None):
+    edges = [tuple(e) for e in edges]
+    if nodes is not None:
+        nodes = [(i, l, (list(t) if t is not None else None)) for i, l, t in nodes]
+    return tag_fanout(_check_plain(edges, text, dev, nodes), edges, text, dev, nodes)
 
 
 def _case(edges, text, dev, nodes=None):
@@ -1045,7 +1115,7 @@ def _keywords_worker(chunk, st: Stats, tier):
                         st.add("nontrivial")
                     if V:
                         case = _case(edges, text, dev, nodes)
-                        for sig, what in V:
+                        for sig, what in tag_fanout(V, edges, text, dev, nodes):
                             st.violation(sig, what, case)
                         stores.pop(world, None)
                     else:
@@ -1069,19 +1139,40 @@ def _arms_worker(chunk, st: Stats, tier):
                 st.distinct("outcomes", ("arms", outcome))
                 if nontrivial:
                     st.add("nontrivial")
-                for sig, what in V:
+                for sig, what in tag_fanout(V, edges, text, dev, ARM_NODES):
                     st.violation(sig, what, _case(edges, text, dev, ARM_NODES))
 
 
-def _worker(chunk, st: Stats, tier):
+FANOUT_BASE = {"par": "on", "world": "two"}
+
+
+def fanout_devs(thorough: bool, k: int):
+    """two graphs handed to the fan-out, plus every assignment with <= k further deviations over the other dimensions"""
+    return [dict(d, **FANOUT_BASE) for d in enum_devs(thorough, k) if not (set(d) & set(FANOUT_BASE))]
+
+
+def fanout_k(tier: str, edges) -> int:
+    return 2 if (tier == "thorough" and len(edges) <= 1) else 1
+
+
+def _fanout_worker(chunk, st: Stats, tier):
+    """fan-out leg: the aggregate over SEVERAL per-graph walks under a binding cap needs three deviations (gate, second
+    graph, cap), one more than the main leg allows; same executions and same three oracle layers as the main leg"""
+    _worker(chunk, st, tier, True)
+
+
+def _worker(chunk, st: Stats, tier, fanout=False):
     install()
     space = graph_space(tier)
     devs = {}
     for k in (1, 2):
-        devs[k] = [(dev,) + make_ctx(dev) for dev in enum_devs(tier == "thorough", k)]
-    first = True
+        dl = fanout_devs(tier == "thorough", k) if fanout else enum_devs(tier == "thorough", k)
+        devs[k] = [(dev,) + make_ctx(dev) for dev in dl]
+    first = not fanout
     for gi in chunk:
         edges, kdev = space[gi]
+        if fanout:
+            kdev = fanout_k(tier, edges)
         stores = {}
         for text in TEXTS:
             scenes = {w: make_scene(edges, text, w) for w in ("one", "two")}
@@ -1097,9 +1188,14 @@ def _worker(chunk, st: Stats, tier):
                 res, store, before, state = execute(sc, ctx, P, *sb)
                 st.add("transitions")
                 st.add("states")
+                if fanout:
+                    st.add("fanout_cases")
+                if OBS.pools:
+                    st.add("pool_executions")           # anti-vacuity: the stage really went through the fan-out
+                    st.add("pool_tasks", OBS.pool_tasks)
                 V, outcome, nontrivial = judge(sc, dev, P, res, store, before, state)
                 st.add("validated")
-                st.distinct("outcomes", outcome)
+                st.distinct("outcomes", ("fan-out", outcome) if fanout else outcome)
                 if outcome >= 0 and outcome % 8:
                     st.add("ref_exempt_near_tie")          # layer (iii) skipped: a decision hinged on < 1e-12
                 elif P["relax"] == 0:
@@ -1111,12 +1207,12 @@ def _worker(chunk, st: Stats, tier):
                 if V:
                     st.add("failing_cases")
                     case = _case(edges, text, dev)
-                    for sig, what in V:
+                    for sig, what in tag_fanout(V, edges, text, dev):
                         st.violation(sig, what, case)
                     stores.pop(world, None)        # never reuse a store after a failure
                 else:
                     stores[world] = (store, before)
-        if gi % 211 == 0:
+        if gi % 211 == 0 and not fanout:
             dl = devs[kdev]
             st.sample(_case(edges, TEXTS[(gi // 211) % len(TEXTS)], dl[(gi * 7) % len(dl)][0]))
 
@@ -1140,6 +1236,12 @@ def run(run: Run) -> None:
                 + " x 5 texts (no seed, label, substring + 2 labels, tag, all three) x every config with <=2 deviations over %d dimensions; " % len(DIMS) +
                 "non-trivial = at least one propagation or cap/budget hit, or pops cut below the number of seeds")
     run.pmap(_worker, list(range(len(space))), extra=(tier,))
+    fan_items = [gi for gi, (g, _k) in enumerate(space) if len(g) <= 2]
+    run.notes["fanout_graphs"] = len(fan_items)
+    run.notes["fanout_configs"] = {"<=1 further deviation": len(fanout_devs(run.thorough, 1))}
+    if run.thorough:
+        run.notes["fanout_configs"]["<=2 further deviations (graphs with <=1 edge)"] = len(fanout_devs(True, 2))
+    run.pmap(_fanout_worker, fan_items, extra=(tier,))
     run.notes["arm_graphs"] = len(arm_graphs())
     run.pmap(_arms_worker, arm_graphs(), extra=(tier,))
     warm_items = [(g, None, TEXTS[1:]) for g, _k in space if len(g) <= 1] + [(g, ARM_NODES, ARM_TEXTS[:1]) for g in arm_graphs()[::7]]
@@ -1154,6 +1256,11 @@ def run(run: Run) -> None:
     run.notes["call_histories"] = len(history_space(tier))
     run.notes["history_cache_kinds"] = [list(k) for k in (CACHE_KINDS_THOROUGH if run.thorough else CACHE_KINDS_QUICK)]
     run.pmap(_history_worker, hist_items, extra=(tier,), procs=NCPU)
+    run.rule += ("; the dimension 'par' is the entry path: graphs walked one after the other (default) or handed to the per-graph fan-out "
+                 "behind the perf.parallel gate (enabled + t1 + max_workers 4" + ("; thorough also max_workers 1, where the gate stays closed" if run.thorough else "")
+                 + "); plus fan-out leg: gate set AND two active graphs, every <=2-edge graph of the main leg x 5 texts x every config with <=1 "
+                 "further deviation" + (" (<=2 on graphs with <=1 edge)" if run.thorough else "") + " over the other %d dimensions (so a binding cap meets "
+                 "the aggregate over several per-graph walks), judged by the same three oracle layers" % (len(DIMS) - 2))
     run.rule += ("; plus keyword holders: every assignment of labels {apple, Apple, pear} to the 3 nodes x tag lists {none, [APPLE], [Pear, pear]} on "
                  "one node x {none, [apple]} on another (162 node sets: keywords unique / shared by 2-3 nodes as label or tag / doubled on one "
                  "node) x " + ("<=1-edge graphs over weights {-.5,1} x {supports,unknown}" if run.thorough else "<=1-edge graphs (weight 1, supports)")
@@ -1163,7 +1270,12 @@ def run(run: Run) -> None:
                  + "), same text and config (<=1 deviation, two graphs), <=1-edge graphs (weight 1, supports) x 4 seeding texts + 10 arm graphs: "
                  "each call's deltas must equal those of the same call made cold, and so must its six counters (a call reporting cache "
                  "hits may instead omit the cached graphs' work)")
-    run.assume("sequential T1 path only (perf.parallel off; the parallel fan-out is C09's subject); the stage result cache is disabled in the "
+    run.assume("the per-graph fan-out (perf.parallel gate) is executed with its workers run one at a time in submission order: "
+               "`ThreadPoolExecutor` inside clematis.engine.util.parallel is replaced by an inline pool that runs each submitted task at "
+               "once and hands back a completed Future; the stage's task list, run_parallel, merge and unpacking code are the real ones. "
+               "Thread schedules and completion orders of a real pool are C09's subject. A signature ending in '" + FANOUT_TAG + "' was not "
+               "shown by the same case with the gate at its default (classification by a re-run, after the verdict)")
+    run.assume("the stage result cache is disabled in the "
                "single-call legs (t1.cache.enabled=false, perf cache sizes 0) and ON in the warm-cache and call-history legs, where the oracle "
                "is the differential twin 'same call, cold' on graph_deltas and the six work counters only (max_delta, cache_* and perf "
                "counters of a cache hit are left to C05); in the call-history leg a call that reports cache hits may also carry the "
